@@ -382,7 +382,8 @@ def model_case(draw):
         if kind == 'ads':
             a = draw(st.sampled_from(mine))
             r = {'kind': 'ads', 'react': [['gas', draw(st.integers(0, ngas - 1)), 1.0], ['ads', vac, float(ads[a]['n_sites'])]],
-                 'prod': [['ads', a, 1.0]], 'ts': None, 'stick': draw(st.floats(0.01, 1.0)), 'beta': draw(st.sampled_from([None, 0.0]))}
+                 'prod': [['ads', a, 1.0]], 'ts': None, 'stick': draw(st.one_of(st.none(), st.floats(0.01, 1.0))),
+                 'beta': draw(st.sampled_from([None, 0.0]))}
         else:
             a, b = draw(st.sampled_from(mine)), draw(st.sampled_from(mine))
             ts = draw(st.sampled_from(['none', 'explicit', 'bep'])) if beps else draw(st.sampled_from(['none', 'explicit']))
@@ -390,7 +391,10 @@ def model_case(draw):
                  'prod': [['ads', b, draw(st.sampled_from([1.0, 2.0]))]] + ([['gas', draw(st.integers(0, ngas - 1)), 1.0]]
                                                                           if draw(st.booleans()) else []),
                  'ts': ts, 'bep': draw(st.integers(0, max(0, nbep - 1))), 'stick': None,
-                 'beta': draw(st.sampled_from([None, 1.0, 0.5]))}
+                 'beta': draw(st.sampled_from([None, 1.0, 0.5])),
+                 # user-supplied rate parameters override the computed ones (Ea documented in kcal/mol)
+                 'Ea_user': draw(st.one_of(st.none(), st.none(), st.floats(0.5, 60))),
+                 'A_user': draw(st.one_of(st.none(), st.none(), gen.logf(1e8, 1e22)))}
         if id_mode == 'user' or (id_mode == 'mixed' and draw(st.booleans())):
             r['id'] = 'r_%04d' % (100 + m)
         elif id_mode == 'user-low' and m % 2 == 0:
@@ -451,7 +455,8 @@ def build_model(case):
             direction = case['beps'][r['bep']]['direction']
         rxns.append(SurfaceReaction(reactants=re_, reactants_stoich=rs, products=pr, products_stoich=ps, transition_state=ts,
                                     transition_state_stoich=[1.0] if ts else None, id=r['id'], is_adsorption=r['kind'] == 'ads',
-                                    sticking_coeff=r['stick'], beta=r['beta'], direction=direction))
+                                    sticking_coeff=r['stick'], beta=r['beta'], direction=direction,
+                                    Ea=r.get('Ea_user'), A=r.get('A_user')))
     inter = [PiecewiseCovEffect(name_i=i['name_i'], name_j=i['name_j'], intervals=list(i['intervals']), slopes=list(i['slopes']),
                                 name=i['name']) for i in case['inter']]
     gas_ph = IdealGas(name='gas', species=gas)
@@ -588,7 +593,7 @@ def check_model(case, ctx):
             break
         if r['kind'] == 'ads':
             rc = e.get('sticking-coefficient', {})
-            wantA = r['stick']
+            wantA = r['stick'] if r['stick'] is not None else 0.5       # documented default
             wantE = rx.get_H_act(units=units.act_energy, T=T, P=P)
             if e.get('sticking-species') != rx.reactants[0].name or e.get('Motz-Wise') not in (case['motz'], str(case['motz'])):
                 ctx.fail('C07.model/yaml:sticking-fields', repr(e))
@@ -597,6 +602,10 @@ def check_model(case, ctx):
             rc = e.get('rate-constant', {})
             wantA = float(rx.get_A(T=T, P=P, include_entropy=False, units=A_units))
             wantE = rx.get_G_act(units=units.act_energy, T=T, P=P)
+            if r.get('A_user') is not None:
+                wantA = r['A_user']
+            if r.get('Ea_user') is not None:
+                wantE = c.convert_unit(r['Ea_user'], initial='kcal/mol', final=units.act_energy)
         ev, eu = _num_unit(rc.get('Ea'))
         if ev is None or eu != units.act_energy or abs(ev - wantE) > 1e-9 * max(1.0, abs(wantE)):
             ctx.fail('C07.model/yaml:Ea:%s' % r['kind'], '%s: file %r model %r %s' % (eq, rc.get('Ea'), wantE, units.act_energy))
@@ -764,11 +773,15 @@ def check_model(case, ctx):
                     ctx.fail('C07.model/cti:stick-missing', repr(rate))
                     break
                 vals = rate[1]
-                wantA, wantE = r['stick'], rx.get_H_act(units=units.act_energy, T=T, P=P)
+                wantA, wantE = (r['stick'] if r['stick'] is not None else 0.5), rx.get_H_act(units=units.act_energy, T=T, P=P)
             else:
                 vals = rate
                 wantA = float(rx.get_A(T=T, P=P, include_entropy=False, units=A_units))
                 wantE = rx.get_G_act(units=units.act_energy, T=T, P=P)
+                if r.get('A_user') is not None:
+                    wantA = r['A_user']
+                if r.get('Ea_user') is not None:
+                    wantE = c.convert_unit(r['Ea_user'], initial='kcal/mol', final=units.act_energy)
             want_b = r['beta'] if r['beta'] is not None else (0.0 if r['kind'] == 'ads' else 1.0)
             if abs(vals[0] - wantA) > 6e-6 * abs(wantA) or float(vals[1]) != float(want_b) or \
                     abs(vals[2] - wantE) > 6e-6 * abs(wantE) + 1e-9:
